@@ -9,7 +9,7 @@ Lemma shape_inheap e : shape_ok e = true -> e_inheap e = true ->
 Proof.
   unfold shape_ok. intros H Hh. destruct (e_cl e) as [c|].
   - rewrite Hh in H. discriminate.
-  - split; [reflexivity|]. destruct (e_w e) as [| | | |m|[|m]]; try discriminate;
+  - split; [reflexivity|]. destruct (e_w e) as [| | | |m|[|m|]]; try discriminate;
       try (apply andb_prop in H; destruct H as [_ Hl]; split; [exact Hl | reflexivity]).
     rewrite Hh in H. discriminate.
 Qed.
@@ -33,8 +33,8 @@ Proof.
       cbn; try reflexivity; try lia; auto.
     + ok_split; unfold_ok; cbn; rewrite ?Hcl in *.
       * reflexivity.
-      * intros m [Hm|Hm]; discriminate.
-      * intros c Hc; discriminate.
+      * apply minfo_ok_none; cbn; discriminate.
+      * intros c Hc. cbn in Hc. rewrite Hcl in Hc. discriminate.
       * exact Hans.
       * destruct v; [split; [discriminate | apply Hstuck] | discriminate].
     + intros sd q Hin. destruct (idmap_after_remove v s p e I Hp sd q Hin) as [A B].
@@ -45,8 +45,8 @@ Proof.
     ok_split; unfold_ok; cbn; rewrite ?Ew, ?Eh in *.
     + destruct (e_cl e) as [c|]; [|discriminate]. cbn in *.
       destruct (c_pc c); cbn in *; bool_crush; try discriminate; [assumption | destruct v; reflexivity].
-    + intros m [Hm|Hm]; destruct v; discriminate.
-    + exact Hclient.
+    + apply minfo_ok_none; destruct v; cbn; discriminate.
+    + eapply client_ok_w; [exact Hclient | reflexivity | reflexivity].
     + exact Hans.
     + destruct v; [split; [discriminate | apply Hstuck] | discriminate].
 Qed.
@@ -54,28 +54,30 @@ Qed.
 (* steps that leave the entries alone *)
 Lemma inv_same_entries v s s' :
   Inv v s -> entries s' = entries s -> idmap s' = idmap s -> gauge s' = gauge s -> bridges s' = bridges s ->
+  br_hist s' = br_hist s ->
   (next_cid s <= next_cid s')%nat ->
   (forall x, In x (answer_log s) -> In x (answer_log s')) ->
   (forall cid n fp o r, In (cid, n, fp, o, r) (done_clients s') -> (cid < next_cid s')%nat) ->
   Inv v s'.
 Proof.
-  intros [Ie Ii Ig Ipo Ic Id] He Hi Hg Hb Hn Hl Hd. constructor.
-  - intros p e Hp. rewrite He in Hp. rewrite Hb. eapply entry_ok_mono; [exact Hn | apply (Ie p e Hp)].
+  intros [Ie Ii Ig Ipo Ic Id Ih] He Hi Hg Hb Hh Hn Hl Hd. constructor.
+  - intros p e Hp. rewrite He in Hp. rewrite Hb, Hh. eapply entry_ok_mono; [exact Hn | apply (Ie p e Hp)].
   - intros sd p Hin. rewrite Hi in Hin. rewrite He. apply Ii. exact Hin.
   - rewrite Hg, He. exact Ig.
   - intros p e a Hp Ha. rewrite He in Hp. destruct (Ipo p e a Hp Ha) as [aid H]. exists aid. apply Hl. exact H.
   - rewrite He. exact Ic.
   - exact Hd.
+  - rewrite Hb, Hh. exact Ih.
 Qed.
 
 Lemma eligible_inheap n e : eligible n e = true -> e_inheap e = true /\ compat n (e_nat e) = true.
 Proof. unfold eligible, compat. intros H. apply andb_prop in H. exact H. Qed.
 
-Lemma step_Client v s n fp o ch s' : Inv v s -> step v s (L_Client n fp o ch) = Some s' -> Inv v s'.
+Lemma step_Client v s n ofp o ch s' : Inv v s -> step v s (L_Client n ofp o ch) = Some s' -> Inv v s'.
 Proof.
-  intros I H. cbn [step] in H.
+  intros I H. cbn [step] in H. remember (fp_of ofp) as fp eqn:Efp. clear Efp.
   assert (Fin : forall r s1,
-    s1 = {| entries := entries s; idmap := idmap s; gauge := gauge s; bridges := bridges s;
+    s1 = {| entries := entries s; idmap := idmap s; gauge := gauge s; bridges := bridges s; br_hist := br_hist s;
             next_cid := S (next_cid s); next_aid := next_aid s;
             done_clients := (next_cid s, n, fp, o, r) :: done_clients s; done_answers := done_answers s;
             answer_log := answer_log s |} -> Inv v s1).
@@ -91,13 +93,15 @@ Proof.
       destruct (eligible_inheap n e Hel) as [Hh Hcompat].
       pose proof (inv_entries v s I p e Hp) as Hok. unpack_ok Hok.
       destruct (shape_inheap e Hshape Hh) as [Hcl [Hlive Hw]].
-      set (c := {| c_id := next_cid s; c_nat := n; c_fp := fp; c_offer := o; c_pc := C_Send; c_fired := false |}).
+      set (c := {| c_id := next_cid s; c_nat := n; c_fp := fp; c_offer := o; c_pc := C_Send; c_fired := false;
+                   c_url := u; c_epoch := length (br_hist s) |}).
       eapply (inv_step_upd v s _ p e (fun e => set_cl (Some c) (set_heap_live false (e_live e) e)) I Hp);
         cbn; try reflexivity; try lia; auto.
       * ok_split; unfold_ok; cbn; rewrite ?Hcl, ?Hlive in *.
-        -- destruct (e_w e) as [| | | |m|[|m]]; try discriminate; reflexivity.
-        -- intros m Hm. destruct (e_w e) as [| | | |m'|[|m']]; try discriminate; destruct Hm; discriminate.
-        -- intros c0 Hc0. injection Hc0 as <-. cbn. split; [exact Hcompat|]. split; [congruence | lia].
+        -- destruct (e_w e) as [| | | |m|[|m|]]; try discriminate; reflexivity.
+        -- destruct (e_w e) as [| | | |m'|[|m'|]] eqn:Ew; try discriminate; apply minfo_ok_none; cbn; rewrite Ew; discriminate.
+        -- intros c0 Hc0. cbn in Hc0. injection Hc0 as <-. unfold c. cbn. split; [exact Hcompat|]. split; [apply Nat.lt_succ_diag_r|]. split; [apply Nat.le_refl|].
+           split; [exists (bridges s); split; [apply (inv_hist v s I) | exact Hfp] | intros _; exact Hfp].
         -- destruct Hans as [A [B C]]. split; [exact A|]. split; [exact B|].
            intros c0 a Hc0 [Hx|Hx]; injection Hc0 as <-; discriminate.
         -- exact Hstuck.
@@ -128,17 +132,16 @@ Proof.
   destruct (e_cl e) as [c|] eqn:Hc; [|discriminate].
   destruct (c_pc c) eqn:Hpc; try discriminate.
   destruct (match e_w e with W_Select | W_Late => true | _ => false end) eqn:Hw; [|discriminate].
-  destruct (lookup (c_fp c) (bridges s)) as [u|] eqn:Hfp; [|discriminate].
   injection H as <-.
   pose proof (inv_entries v s I p e Hp) as Hok. unpack_ok Hok.
   destruct (shape_client_send e c Hshape Hc Hpc) as [Hh [Hlive _]].
-  set (m := {| m_offer := c_offer c; m_nat := c_nat c; m_url := u |}).
+  set (m := {| f_offer := c_offer c; f_nat := c_nat c; f_fp := c_fp c |}).
   apply (inv_step_simple v s p e (fun e => set_w (W_Forward m) (set_cl (Some (set_cpc C_Wait c)) e)) I Hp); cbn; auto.
   - ok_split; unfold_ok; cbn; rewrite ?Hc, ?Hh, ?Hlive in *.
     + reflexivity.
-    + intros m' [Hm|Hm]; [|discriminate]. injection Hm as <-.
-      exists (set_cpc C_Wait c). cbn. repeat split; try reflexivity. exact Hfp.
-    + intros c0 Hc0. injection Hc0 as <-. cbn. apply Hclient; first [reflexivity | exact Hc].
+    + split; [|split]; cbn; try discriminate.
+      intros f' Hf. injection Hf as <-. exists (set_cpc C_Wait c). cbn. repeat split; reflexivity.
+    + eapply client_ok_same; [exact Hclient | reflexivity | exact Hc | reflexivity | apply csame_cpc].
     + destruct Hans as [A [B C]]. split; [exact A|]. split; [exact B|].
       intros c0 a Hc0 [Hx|Hx]; injection Hc0 as <-; discriminate.
     + destruct v; [split; [discriminate | apply Hstuck] | discriminate].
@@ -152,11 +155,28 @@ Proof.
   destruct (e_w e) as [| | | |m|r] eqn:Ew; try discriminate.
   injection H as <-.
   pose proof (inv_entries v s I p e Hp) as Hok. unpack_ok Hok.
-  apply (inv_step_simple v s p e (set_w (W_Done (PMatch m))) I Hp); cbn; auto; [|same_client].
+  set (r := match lookup (f_fp m) (bridges s) with
+            | Some u => PMatch {| m_offer := f_offer m; m_nat := f_nat m; m_url := u |}
+            | None => PError end).
+  assert (Hr : match r with PNoMatch => false | _ => true end = true)
+    by (unfold r; destruct (lookup (f_fp m) (bridges s)); reflexivity).
+  apply (inv_step_simple v s p e (set_w (W_Done r)) I Hp); cbn; auto; [|same_client].
   ok_split; unfold_ok; cbn; rewrite ?Ew in *.
-  - destruct (e_cl e) as [c|]; [|discriminate]. destruct (c_pc c); cbn in *; exact Hshape.
-  - intros m' [Hm|Hm]; [discriminate|]. injection Hm as <-. apply Hminfo. left. reflexivity.
-  - exact Hclient.
+  - destruct (e_cl e) as [c|]; [|discriminate]. cbn in Hshape.
+    destruct (c_pc c); rewrite ?Hr; try exact Hshape.
+  - destruct Hminfo as [Hf _]. destruct (Hf m Ew) as [c [Hc [Ho [Hn Hfp]]]].
+    destruct (Hclient c Hc) as [_ [_ [Hle [_ Hcur]]]].
+    split; [|split]; cbn; try discriminate.
+    + intros m' Hm. unfold r in Hm. destruct (lookup (f_fp m) (bridges s)) as [u|] eqn:Hl; [|discriminate].
+      injection Hm as <-. cbn. exists c. split; [exact Hc|]. split; [exact Ho|]. split; [exact Hn|]. split.
+      * exists (bridges s). split; [apply (inv_hist v s I) | rewrite <- Hfp; exact Hl].
+      * destruct (Nat.eq_dec (c_epoch c) (length (br_hist s))) as [He|He]; [|right; apply Nat.le_neq; split; assumption].
+        left. specialize (Hcur He). rewrite <- Hfp, Hl in Hcur. congruence.
+    + intros Hm. unfold r in Hm. destruct (lookup (f_fp m) (bridges s)) as [u|] eqn:Hl; [discriminate|].
+      exists c. split; [exact Hc|].
+      destruct (Nat.eq_dec (c_epoch c) (length (br_hist s))) as [He|He]; [|apply Nat.le_neq; split; assumption].
+      specialize (Hcur He). rewrite <- Hfp, Hl in Hcur. discriminate.
+  - eapply client_ok_w; [exact Hclient | reflexivity | reflexivity].
   - exact Hans.
   - destruct v; [split; [discriminate | apply Hstuck] | discriminate].
 Qed.
@@ -172,9 +192,8 @@ Proof.
   apply (inv_step_simple v s p e (set_cl (Some (set_cfired c))) I Hp); cbn; auto.
   - ok_split; unfold_ok; cbn; rewrite ?Hc, ?Hpc in *.
     + exact Hshape.
-    + intros m Hm. destruct (Hminfo m Hm) as [c0 [Hc0 [A [B C]]]]. injection Hc0 as <-.
-      exists (set_cfired c). cbn. repeat split; assumption.
-    + intros c0 Hc0. injection Hc0 as <-. cbn. apply Hclient; first [reflexivity | exact Hc].
+    + eapply minfo_ok_same; [exact Hminfo | reflexivity | exact Hc | reflexivity | apply csame_cfired].
+    + eapply client_ok_same; [exact Hclient | reflexivity | exact Hc | reflexivity | apply csame_cfired].
     + destruct Hans as [A [B C]]. split; [exact A|]. split; [exact B|].
       intros c0 a Hc0 Hx. injection Hc0 as <-. cbn in Hx. eapply C; [first [reflexivity | exact Hc] | exact Hx].
     + exact Hstuck.
@@ -192,9 +211,8 @@ Proof.
   apply (inv_step_simple v s p e (set_cl (Some (set_cpc (C_Cleanup CTimedOut) c))) I Hp); cbn; auto.
   - ok_split; unfold_ok; cbn; rewrite ?Hc, ?Hpc in *.
     + exact Hshape.
-    + intros m Hm. destruct (Hminfo m Hm) as [c0 [Hc0 [A [B C]]]]. injection Hc0 as <-.
-      exists (set_cpc (C_Cleanup CTimedOut) c). cbn. repeat split; assumption.
-    + intros c0 Hc0. injection Hc0 as <-. cbn. apply Hclient; first [reflexivity | exact Hc].
+    + eapply minfo_ok_same; [exact Hminfo | reflexivity | exact Hc | reflexivity | apply csame_cpc].
+    + eapply client_ok_same; [exact Hclient | reflexivity | exact Hc | reflexivity | apply csame_cpc].
     + destruct Hans as [A [B C]]. split; [exact A|]. split; [exact B|].
       intros c0 a Hc0 [Hx|Hx]; injection Hc0 as <-; discriminate.
     + exact Hstuck.
@@ -214,9 +232,8 @@ Proof.
     cbn; try reflexivity; try lia; auto.
   - ok_split; unfold_ok; cbn; rewrite ?Hc, ?Hpc, ?Hh in *.
     + cbn. exact Hw.
-    + intros m Hm. destruct (Hminfo m Hm) as [c0 [Hc0 [A [B C]]]]. injection Hc0 as <-.
-      exists (set_cpc (C_Done r) c). cbn. repeat split; assumption.
-    + intros c0 Hc0. injection Hc0 as <-. cbn. apply Hclient; first [reflexivity | exact Hc].
+    + eapply minfo_ok_same; [exact Hminfo | reflexivity | exact Hc | reflexivity | apply csame_cpc].
+    + eapply client_ok_same; [exact Hclient | reflexivity | exact Hc | reflexivity | apply csame_cpc].
     + destruct Hans as [A [B C]]. split; [exact A|]. split; [exact B|].
       intros c0 a Hc0 [Hx|Hx]; injection Hc0 as <-; cbn in Hx; [discriminate|].
       injection Hx as ->. eapply C; [first [reflexivity | exact Hc] | left; exact Hpc].
@@ -237,8 +254,8 @@ Proof.
       cbn; try reflexivity; try lia; auto.
     + ok_split; unfold_ok; cbn.
       * exact Hshape.
-      * exact Hminfo.
-      * exact Hclient.
+      * eapply minfo_ok_w; [exact Hminfo | reflexivity | reflexivity].
+      * eapply client_ok_w; [exact Hclient | reflexivity | reflexivity].
       * destruct Hans as [A [B C]]. split; [|split].
         -- intros a0 Ha0. right. apply A. exact Ha0.
         -- intros aid a0 Hin. apply in_app_or in Hin. destruct Hin as [Hin|[Hin|[]]].
@@ -267,9 +284,8 @@ Proof.
     cbn; try reflexivity; try lia; auto.
   - ok_split; unfold_ok; cbn; rewrite ?Hc, ?Hpc, ?Hs in *.
     + exact Hshape.
-    + intros m Hm. destruct (Hminfo m Hm) as [c0 [Hc0 [A [B C]]]]. injection Hc0 as <-.
-      exists (set_cpc (C_Cleanup (CAnswer a)) c). cbn. repeat split; assumption.
-    + intros c0 Hc0. injection Hc0 as <-. cbn. apply Hclient; first [reflexivity | exact Hc].
+    + eapply minfo_ok_same; [exact Hminfo | reflexivity | exact Hc | reflexivity | apply csame_cpc].
+    + eapply client_ok_same; [exact Hclient | reflexivity | exact Hc | reflexivity | apply csame_cpc].
     + destruct Hans as [A [B C]]. split; [exact A|]. split.
       * intros aid0 a0 Hin. eapply B. right. exact Hin.
       * intros c0 a0 Hc0 [Hx|Hx]; injection Hc0 as <-; cbn in Hx; [|discriminate].
@@ -317,9 +333,8 @@ Proof.
   apply (inv_step_simple V1 s p e (fun e => set_buf None (set_cl (Some (set_cpc (C_Cleanup (CAnswer a)) c)) e)) I Hp); cbn; auto.
   - ok_split; unfold_ok; cbn; rewrite ?Hc, ?Hpc, ?Hb in *.
     + exact Hshape.
-    + intros m Hm. destruct (Hminfo m Hm) as [c0 [Hc0 [A [B C]]]]. injection Hc0 as <-.
-      exists (set_cpc (C_Cleanup (CAnswer a)) c). cbn. repeat split; assumption.
-    + intros c0 Hc0. injection Hc0 as <-. cbn. apply Hclient; first [reflexivity | exact Hc].
+    + eapply minfo_ok_same; [exact Hminfo | reflexivity | exact Hc | reflexivity | apply csame_cpc].
+    + eapply client_ok_same; [exact Hclient | reflexivity | exact Hc | reflexivity | apply csame_cpc].
     + destruct Hans as [A [B C]]. split; [intros a0 Ha0; discriminate|]. split; [exact B|].
       intros c0 a0 Hc0 [Hx|Hx]; injection Hc0 as <-; cbn in Hx; [|discriminate].
       injection Hx as <-. apply A. reflexivity.
@@ -330,7 +345,7 @@ Qed.
 Lemma step_Poll v s sd n pt cl s' : Inv v s -> step v s (L_Poll sd n pt cl) = Some s' -> Inv v s'.
 Proof.
   intros I H. cbn [step] in H. injection H as <-.
-  destruct I as [Ie Ii Ig Ipo Ic Id].
+  destruct I as [Ie Ii Ig Ipo Ic Id Ih].
   assert (Hnew : forall p e, nth_error (entries s ++ [new_entry sd n pt cl]) p = Some e ->
             nth_error (entries s) p = Some e \/ (p = length (entries s) /\ e = new_entry sd n pt cl)).
   { intros p e Hp. destruct (Nat.lt_ge_cases p (length (entries s))) as [Hlt|Hge].
@@ -343,7 +358,7 @@ Proof.
   - intros p e Hp. destruct (Hnew p e Hp) as [Hold|[-> ->]]; [apply Ie with p; exact Hold|].
     ok_split; unfold_ok; cbn.
     + reflexivity.
-    + intros m [Hm|Hm]; discriminate.
+    + apply minfo_ok_none; cbn; discriminate.
     + intros c Hc; discriminate.
     + split; [intros a Ha; discriminate|]. split; [intros aid a []|intros c a Hc; discriminate].
     + destruct v; [split; [discriminate | reflexivity] | discriminate].
@@ -360,6 +375,21 @@ Proof.
     destruct (Hnew q e2 H2) as [Ho2|[-> ->]]; [|discriminate].
     eapply Ic; eassumption.
   - exact Id.
+  - exact Ih.
+Qed.
+
+Lemma step_Install v s br s' : Inv v s -> step v s (L_Install br) = Some s' -> Inv v s'.
+Proof.
+  intros I H. cbn [step] in H. injection H as <-.
+  destruct I as [Ie Ii Ig Ipo Ic Id Ih].
+  constructor; cbn.
+  - intros p e Hp. apply entry_ok_install with (cur := bridges s). apply (Ie p e Hp).
+  - exact Ii.
+  - exact Ig.
+  - exact Ipo.
+  - exact Ic.
+  - exact Id.
+  - left. reflexivity.
 Qed.
 
 (* ------------------------------------------------------------------ *)
@@ -381,6 +411,7 @@ Proof.
   - eapply step_RvAnswer; eassumption.
   - eapply step_AnswerPut; eassumption.
   - eapply step_CTakeAnswer; eassumption.
+  - eapply step_Install; eassumption.
 Qed.
 
 Definition reachable (v : version) (br : list (fpr * url)) (s : state) : Prop :=
@@ -397,13 +428,24 @@ Qed.
 Theorem reachable_inv v br s : reachable v br s -> Inv v s.
 Proof. intros [ls H]. eapply run_preserves_inv; [apply inv_init | exact H]. Qed.
 
-Lemma run_bridges v : forall ls s s', run v s ls = Some s' -> bridges s' = bridges s.
+(* without installations the bridge list never changes *)
+Definition no_install (l : label) : bool := match l with L_Install _ => false | _ => true end.
+
+Lemma step_bridges v s l s' : no_install l = true -> step v s l = Some s' ->
+  bridges s' = bridges s /\ br_hist s' = br_hist s.
 Proof.
-  induction ls as [|l ls IH]; intros s s' H; cbn [run] in H.
-  - injection H as <-. reflexivity.
-  - destruct (step v s l) as [s1|] eqn:Hs; [|discriminate]. rewrite (IH _ _ H).
-    destruct l; cbn [step] in Hs;
+  intros Hl Hs. destruct l; try discriminate; cbn [step] in Hs;
     repeat match type of Hs with
            | match ?x with _ => _ end = Some _ => destruct x; try discriminate
-           end; injection Hs as <-; reflexivity.
+           end; injection Hs as <-; split; reflexivity.
+Qed.
+
+Lemma run_bridges v : forall ls s s', forallb no_install ls = true -> run v s ls = Some s' ->
+  bridges s' = bridges s /\ br_hist s' = br_hist s.
+Proof.
+  induction ls as [|l ls IH]; intros s s' Hn H; cbn [run] in H.
+  - injection H as <-. split; reflexivity.
+  - cbn [forallb] in Hn. apply andb_prop in Hn. destruct Hn as [Hl Hls].
+    destruct (step v s l) as [s1|] eqn:Hs; [|discriminate].
+    destruct (IH _ _ Hls H) as [A B]. destruct (step_bridges v s l s1 Hl Hs) as [C D]. split; congruence.
 Qed.
